@@ -36,12 +36,12 @@ def plan(tier, seed):
             specs.append(dict(label='%s-%s' % (fam, impl), family=fam,
                               impl=impl, histories=nh, seed=seed, tier=tier,
                               variant='mon', timeout=900 if tier == 'quick'
-                              else 3000))
+                              else 7200))
     if tier == 'thorough':
         for fam in families.FAMILY_NAMES:
             specs.append(dict(label='%s-c-asan' % fam, family=fam, impl='c',
                               histories=30, seed=seed + 1000, tier=tier,
-                              variant='asan', timeout=3000))
+                              variant='asan', timeout=7200))
     return specs
 
 
